@@ -56,7 +56,38 @@ def session(name, seed=0):
         return mkboards(1, seed), lambda: bundled_clients('weak', order='WSEN', seed=seed)
     if name == 'S6':      # three played boards, arrival order E N W S
         return mkboards(3, seed + 1), lambda: bundled_clients('weak', order='ENWS', seed=seed)
+    if name in ('A1', 'A2'):
+        # admission: invalid requests interleaved with the four bundled clients (arrival order is the list order)
+        def mk():
+            ok = {c['seat'].name: c for c in bundled_clients('pass' if name == 'A1' else 'weak', seed=seed)}
+            if name == 'A1':
+                return [ok['N'], raw_client('Team EW', 'East', 17), ok['E'], raw_client('Team NS', 'North', 18),
+                        raw_client('Intruders', 'South', 18), ok['S'], raw_client('Team EW', 'West', 180), ok['W']]
+            return [raw_client('x', 'West', 1), ok['W'], ok['S'], raw_client('Team EW', 'West', 18, case='upper'), ok['E'],
+                    raw_client('Other', 'North', 18), raw_client('Team EW', 'East', 18), ok['N']]
+        return mkboards(1, seed), mk
     raise KeyError(name)
+
+
+def raw_client(team, seat_name, version, case=None):
+    """a well-formed connection request that is not one of the four bundled clients; reads until the server closes"""
+    def run(net, port, release):
+        s = net.socket()
+        s.connect(('fake', port))
+        line = f'Connecting "{team}" as {seat_name} using protocol version {version}'
+        if case == 'upper':
+            line = line.upper().replace(team.upper(), team)
+        s.sendall((line + '\r\n').encode())
+        got = b''
+        while True:
+            c = s.recv(1)
+            if c == b'':
+                break
+            got += c
+            if got.endswith(b'\r\n') and not got.startswith(b'ERROR'):
+                break          # admitted by mistake: stop here (do not continue the dialogue)
+        return got.decode()
+    return dict(raw=run, request=dict(team=team, seat=seat_name, version=version))
 
 
 def record(name, seed=0, perturb=None, mode='record', schedule=None, idle_s=4.0):
